@@ -117,6 +117,10 @@ func (x *Exec) queryText(o *Obligation, prelude string, model bool) string {
 				continue
 			}
 		}
+		// the string-length axioms only matter (and only cost instantiations) where a length is taken
+		if strings.HasPrefix(l, "(assert") && strings.Contains(l, "(strlen ") && !strings.Contains(body, "(strlen ") {
+			continue
+		}
 		b.WriteString(l)
 		b.WriteString("\n")
 	}
